@@ -17,3 +17,6 @@ open Gossamer.C22
 #print axioms C22_possible_complete
 #print axioms C22_closable_of_computed
 #print axioms C22_lib_rounds_counterexample
+#print axioms C22_safe_sets
+#print axioms C22_safe_within_set
+#print axioms C22_safe_sets_nonvacuous
